@@ -317,6 +317,29 @@ void run_expr(Ctx& c, Env& E, const std::string& s, Syntax own, bool deepAlways)
 }
 
 // ---------------------------------------------------------------------------------------------------------------
+// Blocks.  The engine re-executes a whole shard after every attributed crash, so an enumeration with many crashing
+// cases is cut into blocks (one run_sharded call each): a crash then costs a re-run of its own block only.
+// All analyser objects live in one Env built in the parent; forked workers (and re-forked ones) inherit a pristine copy.
+struct Block { std::string label; std::function<void(Ctx&)> body; };
+
+struct BlockRun { Report rep; RunInfo ri; uint64_t blocks{ 0 }; };
+BlockRun run_blocks(const Options& opt, const std::vector<Block>& blocks) {
+  BlockRun r; const double t_end = now_s() + opt.deadline_s;
+  const std::string only = opt.kv.count("solo") ? opt.str("solo-label", "") : "";
+  for (const auto& b : blocks) {
+    if (!only.empty() && only != b.label) continue;
+    const double left = t_end - now_s();
+    if (left <= 1.0) { r.ri.deadline_hit = true; break; }
+    Options o2 = opt; o2.deadline_s = left;
+    RunInfo ri;
+    r.rep.merge(run_sharded(o2, b.label, b.body, &ri));
+    r.ri.deadline_hit |= ri.deadline_hit; r.ri.crash_cap_hit |= ri.crash_cap_hit; r.ri.cases_total += ri.cases_total; ++r.blocks;
+    if (ri.deadline_hit) break;
+  }
+  return r;
+}
+
+// ---------------------------------------------------------------------------------------------------------------
 // token alphabets, transcribed from MathLexerImpl.l / AsciiLexerImpl.l (every rule has at least one spelling here)
 #define U_FORALL "\xE2\x88\x80"
 #define U_EXISTS "\xE2\x88\x83"
@@ -404,28 +427,40 @@ const std::vector<std::string>& reduced_alphabet(Syntax syn) {
   return syn == Syntax::MATH ? m : a;
 }
 
-void mode_tokens(Ctx& c, int maxLen, int fullLen, int glueLen, int deepLen) {
-  Env E;
+// blocks: (pass, length, syntax) for lengths <= 2; additionally split by the first token for longer sequences
+std::vector<Block> blocks_tokens(Env& E, int maxLen, int fullLen, int glueLen, int deepLen) {
+  std::vector<Block> out;
   for (int pass = 0; pass < 2; ++pass) {  // 0: blank-separated, 1: glued
     const bool spaced = pass == 0;
-    for (int len = spaced ? 0 : 2; len <= (spaced ? maxLen : glueLen) && !c.stop(); ++len) {
+    for (int len = spaced ? 0 : 2; len <= (spaced ? maxLen : glueLen); ++len) {
       for (Syntax syn : { Syntax::MATH, Syntax::ASCII }) {
         const bool reduced = spaced && len > fullLen;
-        const auto& alpha = reduced ? reduced_alphabet(syn) : (syn == Syntax::MATH ? math_alphabet() : ascii_alphabet());
-        std::vector<int> idx(static_cast<size_t>(len), 0);
-        do {
-          if (c.take()) {
-            const std::string s = join(alpha, idx, spaced);
-            const std::string desc = std::string("tokens syn=") + syn_name(syn) + (spaced ? " sep=blank" : " sep=none") + " | " + show(s);
-            c.begin(desc);
-            run_expr(c, E, s, syn, len <= deepLen);
-            if (c.idx % 40009 == 1 || (reduced && c.idx % 2000003 == 7)) c.rep.sample(desc);
-            c.done();
-          }
-        } while (odometer(idx, static_cast<int>(alpha.size())));
+        const auto* alpha = &(reduced ? reduced_alphabet(syn) : (syn == Syntax::MATH ? math_alphabet() : ascii_alphabet()));
+        const int firsts = len >= 3 ? static_cast<int>(alpha->size()) : 1;
+        for (int first = 0; first < firsts; ++first) {
+          const std::string label = std::string("tokens/") + (spaced ? "sp" : "gl") + std::to_string(len) + syn_name(syn) + (len >= 3 ? "/" + std::to_string(first) : "");
+          out.push_back({ label, [&E, alpha, spaced, reduced, len, syn, first, deepLen](Ctx& c) {
+            std::vector<int> idx(static_cast<size_t>(len), 0);
+            const int fixed = len >= 3 ? 1 : 0;  // the first position is fixed inside a block
+            if (fixed) idx[0] = first;
+            std::vector<int> tail(static_cast<size_t>(len - fixed), 0);
+            do {
+              if (c.take()) {
+                for (size_t i = 0; i < tail.size(); ++i) idx[i + static_cast<size_t>(fixed)] = tail[i];
+                const std::string s = join(*alpha, idx, spaced);
+                const std::string desc = std::string("tokens syn=") + syn_name(syn) + (spaced ? " sep=blank" : " sep=none") + " | " + show(s);
+                c.begin(desc);
+                run_expr(c, E, s, syn, len <= deepLen);
+                if (c.idx % 40009 == 1 || (reduced && first % 7 == 0 && c.idx == 777)) c.rep.sample(desc);
+                c.done();
+              }
+            } while (odometer(tail, static_cast<int>(alpha->size())));
+          } });
+        }
       }
     }
   }
+  return out;
 }
 
 // ---------------------------------------------------------------------------------------------------------------
@@ -434,24 +469,30 @@ const std::vector<unsigned char>& bytes32() {
                                                 '{', '}', '|', '[', 0x7F, 0x80, 0x88, 0xC2, 0xE2, 0xFF };
   return b;
 }
-void mode_bytes(Ctx& c, int len32, int len256, int deep32, int deep256) {
-  Env E;
+std::vector<Block> blocks_bytes(Env& E, int len32, int len256, int deep32, int deep256) {
+  std::vector<Block> out;
   for (int pass = 0; pass < 2; ++pass) {
     const int base = pass == 0 ? 32 : 256, maxLen = pass == 0 ? len32 : len256, deepLen = pass == 0 ? deep32 : deep256;
-    for (int len = 0; len <= maxLen && !c.stop(); ++len) {
-      std::vector<int> idx(static_cast<size_t>(len), 0);
-      do {
-        if (c.take()) {
-          std::string s; for (int k : idx) s += static_cast<char>(pass == 0 ? bytes32()[static_cast<size_t>(k)] : static_cast<unsigned char>(k));
-          const std::string desc = std::string("bytes alphabet=") + std::to_string(base) + " | " + show(s);
-          c.begin(desc);
-          run_expr(c, E, s, Syntax::UNDEF, len <= deepLen);
-          if (c.idx % 9973 == 1) c.rep.sample(desc);
-          c.done();
-        }
-      } while (odometer(idx, base));
+    for (int len = 0; len <= maxLen; ++len) {
+      const int firsts = len >= 2 ? base / 8 : 1;  // blocks of 8 first bytes
+      for (int fb = 0; fb < firsts; ++fb) {
+        out.push_back({ "bytes/a" + std::to_string(base) + "l" + std::to_string(len) + "/" + std::to_string(fb), [&E, pass, base, len, deepLen, fb](Ctx& c) {
+          std::vector<int> idx(static_cast<size_t>(len), 0);
+          do {
+            if (len >= 2 && idx[0] / 8 != fb) continue;
+            if (!c.take()) continue;
+            std::string s; for (int k : idx) s += static_cast<char>(pass == 0 ? bytes32()[static_cast<size_t>(k)] : static_cast<unsigned char>(k));
+            const std::string desc = std::string("bytes alphabet=") + std::to_string(base) + " | " + show(s);
+            c.begin(desc);
+            run_expr(c, E, s, Syntax::UNDEF, len <= deepLen);
+            if (c.idx % 997 == 1 && fb % 5 == 0) c.rep.sample(desc);
+            c.done();
+          } while (odometer(idx, base));
+        } });
+      }
     }
   }
+  return out;
 }
 
 // ---------------------------------------------------------------------------------------------------------------
@@ -501,67 +542,78 @@ const std::vector<std::string>& core_alphabet(Syntax syn) {
   return syn == Syntax::MATH ? m : a;
 }
 
-void mode_edits(Ctx& c, int doubleSeeds) {
-  Env E;
-  // pass 0: the seeds themselves (must be accepted by the parser: harness self-check); pass 1: single edits; pass 2: double edits
-  for (Syntax syn : { Syntax::MATH, Syntax::ASCII }) {
-    for (size_t si = 0; si < seeds().size(); ++si) {
+std::vector<std::string> seed_tokens(size_t si, Syntax syn) {
+  auto toks = split_blank(seeds()[si]);
+  if (syn == Syntax::ASCII) for (auto& t : toks) t = to_ascii_token(t);
+  return toks;
+}
+
+std::vector<Block> blocks_edits(Env& E, int doubleSeeds) {
+  std::vector<Block> out;
+  // block 0: the seeds themselves (must be accepted by the parser: harness self-check)
+  out.push_back({ "edits/seeds", [&E](Ctx& c) {
+    for (Syntax syn : { Syntax::MATH, Syntax::ASCII }) for (size_t si = 0; si < seeds().size(); ++si) {
       if (!c.take()) continue;
-      auto toks = split_blank(seeds()[si]); if (syn == Syntax::ASCII) for (auto& t : toks) t = to_ascii_token(t);
-      const std::string s = join_tokens(toks);
+      const std::string s = join_tokens(seed_tokens(si, syn));
       const std::string desc = std::string("edits syn=") + syn_name(syn) + " seed=" + std::to_string(si) + " edit=none | " + show(s);
       c.begin(desc);
-      run_expr(c, E, s, syn, true);
       bool ok = false; try { ok = E.P.Parse(s, syn); } catch (...) {}
       if (!ok) c.fail("C04:HARNESS:seed-rejected", "seed expression is not accepted by the parser (harness seed table is wrong)", s);
-      c.rep.sample(desc);
+      run_expr(c, E, s, syn, true);
+      if (si % 13 == 0) c.rep.sample(desc);
       c.done();
     }
-  }
-  for (Syntax syn : { Syntax::MATH, Syntax::ASCII }) {
-    const auto& alpha = syn == Syntax::MATH ? math_alphabet() : ascii_alphabet();
-    for (size_t si = 0; si < seeds().size() && !c.stop(); ++si) {
-      auto base = split_blank(seeds()[si]); if (syn == Syntax::ASCII) for (auto& t : base) t = to_ascii_token(t);
+  } });
+  // single edits: one block per (syntax, seed)
+  for (Syntax syn : { Syntax::MATH, Syntax::ASCII }) for (size_t si = 0; si < seeds().size(); ++si) {
+    out.push_back({ std::string("edits/single/") + syn_name(syn) + "/" + std::to_string(si), [&E, syn, si](Ctx& c) {
+      const auto& alpha = syn == Syntax::MATH ? math_alphabet() : ascii_alphabet();
+      const auto base = seed_tokens(si, syn);
       const int n = static_cast<int>(base.size());
       auto run = [&](const std::vector<std::string>& toks, const std::string& what) {
         const std::string s = join_tokens(toks);
         const std::string desc = std::string("edits syn=") + syn_name(syn) + " seed=" + std::to_string(si) + " edit=" + what + " | " + show(s);
         c.begin(desc);
         run_expr(c, E, s, syn, false);
-        if (c.idx % 20011 == 1) c.rep.sample(desc);
+        if (c.idx == 333 && si % 9 == 0) c.rep.sample(desc);
         c.done();
       };
       for (int p = 0; p < n; ++p) if (c.take()) { auto t = base; t.erase(t.begin() + p); run(t, "del@" + std::to_string(p)); }
       for (int p = 0; p < n; ++p) for (size_t a = 0; a < alpha.size(); ++a) if (c.take()) { auto t = base; t[static_cast<size_t>(p)] = alpha[a]; run(t, "rep@" + std::to_string(p)); }
       for (int p = 0; p <= n; ++p) for (size_t a = 0; a < alpha.size(); ++a) if (c.take()) { auto t = base; t.insert(t.begin() + p, alpha[a]); run(t, "ins@" + std::to_string(p)); }
-    }
+    } });
   }
-  if (doubleSeeds <= 0) return;
-  // double edits: two edits at positions p < q of the seed, each edit in {delete, replace by core token, insert core token before}
+  // double edits: two edits at positions p < q of the seed, each edit in {delete, replace by core token, insert core token before};
+  // every 4th seed (spread over the productions); one block per (syntax, seed, p)
   for (Syntax syn : { Syntax::MATH, Syntax::ASCII }) {
-    const auto& alpha = core_alphabet(syn);
-    const int A = static_cast<int>(alpha.size()), K = 1 + 2 * A;  // edit kinds per position
     int used = 0;
-    for (size_t si = 0; si < seeds().size() && used < doubleSeeds && !c.stop(); si += 4, ++used) {  // every 4th seed: spread over the productions
-      auto base = split_blank(seeds()[si]); if (syn == Syntax::ASCII) for (auto& t : base) t = to_ascii_token(t);
-      const int n = static_cast<int>(base.size());
-      auto apply = [&](std::vector<std::string>& t, int pos, int kind) {  // apply to position pos of t
-        if (kind == 0) t.erase(t.begin() + pos);
-        else if (kind <= A) t[static_cast<size_t>(pos)] = alpha[static_cast<size_t>(kind - 1)];
-        else t.insert(t.begin() + pos, alpha[static_cast<size_t>(kind - 1 - A)]);
-      };
-      for (int p = 0; p < n; ++p) for (int q = p + 1; q < n; ++q) for (int k1 = 0; k1 < K; ++k1) for (int k2 = 0; k2 < K; ++k2) {
-        if (!c.take()) continue;
-        auto t = base; apply(t, q, k2); apply(t, p, k1);  // later position first: indices stay valid
-        const std::string s = join_tokens(t);
-        const std::string desc = std::string("edits syn=") + syn_name(syn) + " seed=" + std::to_string(si) + " edit=double@" + std::to_string(p) + "," + std::to_string(q) + " | " + show(s);
-        c.begin(desc);
-        run_expr(c, E, s, syn, false);
-        if (c.idx % 200003 == 1) c.rep.sample(desc);
-        c.done();
+    for (size_t si = 0; si < seeds().size() && used < doubleSeeds; si += 4, ++used) {
+      const int n = static_cast<int>(seed_tokens(si, syn).size());
+      for (int p = 0; p + 1 < n; ++p) {
+        out.push_back({ std::string("edits/double/") + syn_name(syn) + "/" + std::to_string(si) + "/" + std::to_string(p), [&E, syn, si, p, n](Ctx& c) {
+          const auto& alpha = core_alphabet(syn);
+          const int A = static_cast<int>(alpha.size()), K = 1 + 2 * A;  // edit kinds per position
+          const auto base = seed_tokens(si, syn);
+          auto apply = [&](std::vector<std::string>& t, int pos, int kind) {
+            if (kind == 0) t.erase(t.begin() + pos);
+            else if (kind <= A) t[static_cast<size_t>(pos)] = alpha[static_cast<size_t>(kind - 1)];
+            else t.insert(t.begin() + pos, alpha[static_cast<size_t>(kind - 1 - A)]);
+          };
+          for (int q = p + 1; q < n; ++q) for (int k1 = 0; k1 < K; ++k1) for (int k2 = 0; k2 < K; ++k2) {
+            if (!c.take()) continue;
+            auto t = base; apply(t, q, k2); apply(t, p, k1);  // later position first: indices stay valid
+            const std::string s = join_tokens(t);
+            const std::string desc = std::string("edits syn=") + syn_name(syn) + " seed=" + std::to_string(si) + " edit=double@" + std::to_string(p) + "," + std::to_string(q) + " | " + show(s);
+            c.begin(desc);
+            run_expr(c, E, s, syn, false);
+            if (c.idx == 4444 && p == 0) c.rep.sample(desc);
+            c.done();
+          }
+        } });
       }
     }
   }
+  return out;
 }
 
 // ---------------------------------------------------------------------------------------------------------------
@@ -570,73 +622,76 @@ struct Family { std::string name; Syntax syn; std::function<std::string(long)> m
 std::string rep(const std::string& unit, long n) { std::string s; s.reserve(unit.size() * static_cast<size_t>(n)); for (long i = 0; i < n; ++i) s += unit; return s; }
 
 const std::vector<Family>& families() {
-  static const long INF = 1000000000L;
+  // depth caps by cost class (measured): T = nested *types* (Typification is deep-copied at every level: quadratic, ~2 s at 1e3),
+  // W = wide lists / long scopes (quadratic list building and linear scope scans), R = recursive nesting (linear until the
+  // stack is exhausted), F = flat (lexer level or parser stack only)
+  static const long T = 1000, W = 10000, R = 100000, F = 1000000;
   static const std::vector<Family> f = {
     // nesting (MATH)
-    { "paren", Syntax::MATH, [](long n) { return rep("(", n) + "X1" U_UNION "X1" + rep(")", n); }, 0, INF },
-    { "paren-open", Syntax::MATH, [](long n) { return rep("(", n); }, 0, INF },
-    { "paren-logic-open", Syntax::MATH, [](long n) { return rep("(", n) + "1=1"; }, 0, INF },
-    { "neg", Syntax::MATH, [](long n) { return rep(U_NOT, n) + "1=1"; }, 0, INF },
-    { "neg-open", Syntax::MATH, [](long n) { return rep(U_NOT, n); }, 0, INF },
-    { "boolean", Syntax::MATH, [](long n) { return rep(U_BOOL, n) + "(X1)"; }, 0, INF },
-    { "boolean-paren", Syntax::MATH, [](long n) { return rep(U_BOOL "(", n) + "X1" + rep(")", n); }, 0, INF },
-    { "braces", Syntax::MATH, [](long n) { return rep("{", n) + "D2" + rep("}", n); }, 0, INF },
-    { "braces-open", Syntax::MATH, [](long n) { return rep("{", n); }, 0, INF },
-    { "tuple", Syntax::MATH, [](long n) { return rep("(D2,", n) + "D2" + rep(")", n); }, 0, INF },
-    { "quantifier", Syntax::MATH, [](long n) { return rep(U_FORALL "a" U_IN "X1 ", n) + "1=1"; }, 0, INF },
-    { "quantifier-fresh", Syntax::MATH, [](long n) { std::string s; for (long i = 0; i < n; ++i) s += U_FORALL "a" + std::to_string(i) + U_IN "X1 "; return s + "1=1"; }, 0, 100000 },
-    { "chain-left-union", Syntax::MATH, [](long n) { return "X1" + rep(U_UNION "X1", n); }, 0, INF },
-    { "chain-right-minus", Syntax::MATH, [](long n) { return rep("X1\\(", n) + "X1" U_UNION "X1" + rep(")", n); }, 0, INF },
-    { "chain-and", Syntax::MATH, [](long n) { return "1=1" + rep(" & 1=1", n); }, 0, INF },
-    { "chain-plus", Syntax::MATH, [](long n) { return "1" + rep("+1", n); }, 0, INF },
-    { "chain-decart", Syntax::MATH, [](long n) { return "X1" + rep(U_DECART "X1", n); }, 0, INF },
-    { "bracket-open", Syntax::MATH, [](long n) { return rep("[", n); }, 0, INF },
-    { "call", Syntax::MATH, [](long n) { return rep("F1[", n) + "D1" + rep("]", n); }, 0, INF },
-    { "card", Syntax::MATH, [](long n) { return rep("card(", n) + "X1" + rep(")", n); }, 0, INF },
-    { "bool", Syntax::MATH, [](long n) { return rep("bool(", n) + "D2" + rep(")", n); }, 0, INF },
-    { "debool-bool", Syntax::MATH, [](long n) { return rep("debool(bool(", n) + "D2" + rep("))", n); }, 0, INF },
-    { "pr", Syntax::MATH, [](long n) { return rep("pr1(", n) + "(D2,D2)" + rep(")", n); }, 0, INF },
-    { "Pr", Syntax::MATH, [](long n) { return rep("Pr1(", n) + "S1" + rep(")", n); }, 0, INF },
-    { "filter", Syntax::MATH, [](long n) { return rep("Fi1[D1](", n) + "S1" + rep(")", n); }, 0, INF },
-    { "declarative", Syntax::MATH, [](long n) { return rep("D{a" U_IN "X1|", n) + "1=1" + rep("}" U_NE U_EMPTY, n - 1) + "}"; }, 0, INF },
-    { "imperative", Syntax::MATH, [](long n) { return rep("I{a|a:" U_IN, n) + "X1" + rep("}", n); }, 0, INF },
-    { "recursion", Syntax::MATH, [](long n) { return rep("R{a:=", n) + "X1" + rep("|a}", n); }, 0, INF },
-    { "funcdef-args", Syntax::MATH, [](long n) { return "[a" U_IN "X1" + rep(",a" U_IN "X1", n) + "] 1=1"; }, 0, 100000 },
+    { "paren", Syntax::MATH, [](long n) { return rep("(", n) + "X1" U_UNION "X1" + rep(")", n); }, 0, R },
+    { "paren-open", Syntax::MATH, [](long n) { return rep("(", n); }, 0, F },
+    { "paren-logic-open", Syntax::MATH, [](long n) { return rep("(", n) + "1=1"; }, 0, F },
+    { "neg", Syntax::MATH, [](long n) { return rep(U_NOT, n) + "1=1"; }, 0, R },
+    { "neg-open", Syntax::MATH, [](long n) { return rep(U_NOT, n); }, 0, F },
+    { "boolean", Syntax::MATH, [](long n) { return rep(U_BOOL, n) + "(X1)"; }, 0, T },
+    { "boolean-paren", Syntax::MATH, [](long n) { return rep(U_BOOL "(", n) + "X1" + rep(")", n); }, 0, T },
+    { "braces", Syntax::MATH, [](long n) { return rep("{", n) + "D2" + rep("}", n); }, 0, T },
+    { "braces-open", Syntax::MATH, [](long n) { return rep("{", n); }, 0, F },
+    { "tuple", Syntax::MATH, [](long n) { return rep("(D2,", n) + "D2" + rep(")", n); }, 0, T },
+    { "quantifier", Syntax::MATH, [](long n) { return rep(U_FORALL "a" U_IN "X1 ", n) + "1=1"; }, 0, R },
+    { "quantifier-fresh", Syntax::MATH, [](long n) { std::string s; for (long i = 0; i < n; ++i) s += U_FORALL "a" + std::to_string(i) + U_IN "X1 "; return s + "1=1"; }, 0, W },
+    { "chain-left-union", Syntax::MATH, [](long n) { return "X1" + rep(U_UNION "X1", n); }, 0, R },
+    { "chain-right-minus", Syntax::MATH, [](long n) { return rep("X1\\(", n) + "X1" U_UNION "X1" + rep(")", n); }, 0, R },
+    { "chain-and", Syntax::MATH, [](long n) { return "1=1" + rep(" & 1=1", n); }, 0, R },
+    { "chain-plus", Syntax::MATH, [](long n) { return "1" + rep("+1", n); }, 0, R },
+    { "chain-decart", Syntax::MATH, [](long n) { return "X1" + rep(U_DECART "X1", n); }, 0, R },
+    { "bracket-open", Syntax::MATH, [](long n) { return rep("[", n); }, 0, F },
+    { "call", Syntax::MATH, [](long n) { return rep("F1[", n) + "D1" + rep("]", n); }, 0, R },
+    { "card", Syntax::MATH, [](long n) { return rep("card(", n) + "X1" + rep(")", n); }, 0, R },
+    { "bool", Syntax::MATH, [](long n) { return rep("bool(", n) + "D2" + rep(")", n); }, 0, T },
+    { "debool-bool", Syntax::MATH, [](long n) { return rep("debool(bool(", n) + "D2" + rep("))", n); }, 0, R },
+    { "pr", Syntax::MATH, [](long n) { return rep("pr1(", n) + "(D2,D2)" + rep(")", n); }, 0, R },
+    { "Pr", Syntax::MATH, [](long n) { return rep("Pr1(", n) + "S1" + rep(")", n); }, 0, R },
+    { "filter", Syntax::MATH, [](long n) { return rep("Fi1[D1](", n) + "S1" + rep(")", n); }, 0, R },
+    { "declarative", Syntax::MATH, [](long n) { return rep("D{a" U_IN "X1|", n) + "1=1" + rep("}" U_NE U_EMPTY, n - 1) + "}"; }, 0, R },
+    { "imperative", Syntax::MATH, [](long n) { return rep("I{a|a:" U_IN, n) + "X1" + rep("}", n); }, 0, R },
+    { "recursion", Syntax::MATH, [](long n) { return rep("R{a:=", n) + "X1" + rep("|a}", n); }, 0, R },
+    { "funcdef-args", Syntax::MATH, [](long n) { return "[a" U_IN "X1" + rep(",a" U_IN "X1", n) + "] 1=1"; }, 0, W },
     // width / length (quadratic list building in the parser: bounded at 1e5)
-    { "wide-enum", Syntax::MATH, [](long n) { return "{1" + rep(",1", n) + "}"; }, 0, 100000 },
-    { "wide-tuple", Syntax::MATH, [](long n) { return "(1" + rep(",1", n) + ")"; }, 0, 100000 },
-    { "wide-args", Syntax::MATH, [](long n) { return "F1[D1" + rep(",D1", n) + "]"; }, 0, 100000 },
-    { "wide-imperative", Syntax::MATH, [](long n) { return "I{a|a:" U_IN "X1" + rep(";a" U_IN "X1", n) + "}"; }, 0, 100000 },
-    { "wide-varpack", Syntax::MATH, [](long n) { return U_FORALL "a" + rep(",a", n) + U_IN "X1 1=1"; }, 0, 100000 },
-    { "newlines", Syntax::MATH, [](long n) { return rep("\n", n) + "X1=" + rep("\n", n) + "$"; }, 0, INF },
-    { "blanks", Syntax::MATH, [](long n) { return rep(" \t", n) + U_UNION; }, 0, INF },
-    { "long-identifier", Syntax::MATH, [](long n) { return "X" + rep("1", n); }, 0, INF },
-    { "long-local", Syntax::MATH, [](long n) { return U_FORALL + rep(U_ALPHA, n) + U_IN "X1 1=1"; }, 0, INF },
-    { "long-integer", Syntax::MATH, [](long n) { return rep("9", n) + "=1"; }, 0, INF },
-    { "long-index", Syntax::MATH, [](long n) { return "pr1" + rep(",1", n) + "((D2,D2))"; }, 0, INF },
-    { "long-index-value", Syntax::MATH, [](long n) { return "Pr" + rep("9", n) + "(S1)"; }, 0, INF },
-    { "invalid-bytes", Syntax::MATH, [](long n) { return rep("\xE2\x88", n) + "X1"; }, 0, INF },
+    { "wide-enum", Syntax::MATH, [](long n) { return "{1" + rep(",1", n) + "}"; }, 0, W },
+    { "wide-tuple", Syntax::MATH, [](long n) { return "(1" + rep(",1", n) + ")"; }, 0, W },
+    { "wide-args", Syntax::MATH, [](long n) { return "F1[D1" + rep(",D1", n) + "]"; }, 0, W },
+    { "wide-imperative", Syntax::MATH, [](long n) { return "I{a|a:" U_IN "X1" + rep(";a" U_IN "X1", n) + "}"; }, 0, W },
+    { "wide-varpack", Syntax::MATH, [](long n) { return U_FORALL "a" + rep(",a", n) + U_IN "X1 1=1"; }, 0, W },
+    { "newlines", Syntax::MATH, [](long n) { return rep("\n", n) + "X1=" + rep("\n", n) + "$"; }, 0, F },
+    { "blanks", Syntax::MATH, [](long n) { return rep(" \t", n) + U_UNION; }, 0, F },
+    { "long-identifier", Syntax::MATH, [](long n) { return "X" + rep("1", n); }, 0, F },
+    { "long-local", Syntax::MATH, [](long n) { return U_FORALL + rep(U_ALPHA, n) + U_IN "X1 1=1"; }, 0, F },
+    { "long-integer", Syntax::MATH, [](long n) { return rep("9", n) + "=1"; }, 0, F },
+    { "long-index", Syntax::MATH, [](long n) { return "pr1" + rep(",1", n) + "((D2,D2))"; }, 0, W },
+    { "long-index-value", Syntax::MATH, [](long n) { return "Pr" + rep("9", n) + "(S1)"; }, 0, F },
+    { "invalid-bytes", Syntax::MATH, [](long n) { return rep("\xE2\x88", n) + "X1"; }, 0, F },
     // nesting (ASCII)
-    { "ascii-paren", Syntax::ASCII, [](long n) { return rep("(", n) + "X1 \\union X1" + rep(")", n); }, 0, INF },
-    { "ascii-neg", Syntax::ASCII, [](long n) { return rep("\\neg ", n) + "1 \\eq 1"; }, 0, INF },
-    { "ascii-boolean", Syntax::ASCII, [](long n) { return rep("B", n) + "(X1)"; }, 0, INF },
-    { "ascii-braces", Syntax::ASCII, [](long n) { return rep("{", n) + "D2" + rep("}", n); }, 0, INF },
-    { "ascii-chain-union", Syntax::ASCII, [](long n) { return "X1" + rep(" \\union X1", n); }, 0, INF },
-    { "ascii-backslashes", Syntax::ASCII, [](long n) { return rep("\\", n); }, 0, INF },
+    { "ascii-paren", Syntax::ASCII, [](long n) { return rep("(", n) + "X1 \\union X1" + rep(")", n); }, 0, R },
+    { "ascii-neg", Syntax::ASCII, [](long n) { return rep("\\neg ", n) + "1 \\eq 1"; }, 0, R },
+    { "ascii-boolean", Syntax::ASCII, [](long n) { return rep("B", n) + "(X1)"; }, 0, T },
+    { "ascii-braces", Syntax::ASCII, [](long n) { return rep("{", n) + "D2" + rep("}", n); }, 0, T },
+    { "ascii-chain-union", Syntax::ASCII, [](long n) { return "X1" + rep(" \\union X1", n); }, 0, R },
+    { "ascii-backslashes", Syntax::ASCII, [](long n) { return rep("\\", n); }, 0, F },
     // reference text
-    { "ref-braces", Syntax::UNDEF, [](long n) { return "@" + rep("{", n) + "X1|nomn" + rep("}", n); }, 1, INF },
-    { "ref-braces-open", Syntax::UNDEF, [](long n) { return "@" + rep("{", n); }, 1, INF },
-    { "ref-many", Syntax::UNDEF, [](long n) { return rep("@{X1|nomn} ", n); }, 1, 100000 },
-    { "ref-many-collab", Syntax::UNDEF, [](long n) { return "@{X1|nomn}" + rep(" @{-1|x}", n); }, 1, 100000 },
-    { "ref-bars", Syntax::UNDEF, [](long n) { return "@{X1" + rep("|nomn", n) + "}"; }, 1, INF },
-    { "ref-at", Syntax::UNDEF, [](long n) { return rep("@", n) + "{X1|nomn}"; }, 1, INF },
+    { "ref-braces", Syntax::UNDEF, [](long n) { return "@" + rep("{", n) + "X1|nomn" + rep("}", n); }, 1, F },
+    { "ref-braces-open", Syntax::UNDEF, [](long n) { return "@" + rep("{", n); }, 1, F },
+    { "ref-many", Syntax::UNDEF, [](long n) { return rep("@{X1|nomn} ", n); }, 1, W },
+    { "ref-many-collab", Syntax::UNDEF, [](long n) { return "@{X1|nomn}" + rep(" @{-1|x}", n); }, 1, W },
+    { "ref-bars", Syntax::UNDEF, [](long n) { return "@{X1" + rep("|nomn", n) + "}"; }, 1, F },
+    { "ref-at", Syntax::UNDEF, [](long n) { return rep("@", n) + "{X1|nomn}"; }, 1, F },
     // JSON documents
-    { "json-array", Syntax::UNDEF, [](long n) { return rep("[", n) + rep("]", n); }, 2, INF },
-    { "json-array-open", Syntax::UNDEF, [](long n) { return rep("[", n); }, 2, INF },
-    { "json-object", Syntax::UNDEF, [](long n) { return rep("{\"items\":", n) + "[]" + rep("}", n); }, 2, INF },
-    { "json-items", Syntax::UNDEF, [](long n) { return "{\"items\":[" + rep("[],", n) + "[]]}"; }, 2, INF },
+    { "json-array", Syntax::UNDEF, [](long n) { return rep("[", n) + rep("]", n); }, 2, F },
+    { "json-array-open", Syntax::UNDEF, [](long n) { return rep("[", n); }, 2, F },
+    { "json-object", Syntax::UNDEF, [](long n) { return rep("{\"items\":", n) + "[]" + rep("}", n); }, 2, F },
+    { "json-items", Syntax::UNDEF, [](long n) { return "{\"items\":[" + rep("[],", n) + "[]]}"; }, 2, F },
     { "json-formal-nesting", Syntax::UNDEF, [](long n) {
-        return "{\"items\":[{\"entityUID\":1,\"cstType\":\"term\",\"alias\":\"D1\",\"definition\":{\"formal\":\"" + rep("(", n) + "\"}}]}"; }, 2, INF },
+        return "{\"items\":[{\"entityUID\":1,\"cstType\":\"term\",\"alias\":\"D1\",\"definition\":{\"formal\":\"" + rep("(", n) + "\"}}]}"; }, 2, F },
   };
   return f;
 }
@@ -665,78 +720,114 @@ void run_ref(Ctx& c, const TermContext& tc, const std::string& s, int entry) {  
   if (entry < 0 || entry == 2) guarded(c, "RefsManager.Resolve", false, [&] { ccl::lang::RefsManager m{ tc }; const auto out = m.Resolve(s); c.rep.count("resolved_bytes", out.size()); });
 }
 
-void mode_ladders(Ctx& c, long maxDepth, long facadeMaxDepth) {
-  Env E; TermContext tc; tc.terms.emplace("X1", ccl::lang::LexicalTerm{ "term", "term" });
+TermContext& ladder_terms() { static TermContext tc = [] { TermContext t; t.terms.emplace("X1", ccl::lang::LexicalTerm{ "term", "term" }); return t; }(); return tc; }
+
+void ladder_case(Ctx& c, Env& E, const Family& fam, long depth, int e) {
+  const TermContext& tc = ladder_terms();
+  const char* en = fam.kind == 0 ? kExprEntries[e] : fam.kind == 1 ? kRefEntries[e] : kJsonEntries[e];
+  const std::string desc = "ladder family=" + fam.name + " depth=" + std::to_string(depth) + " entry=" + en;
+  const std::string s = fam.make(depth);
+  c.begin(desc);
+  const double t0 = now_s();
+  const TextLen tl = measure(s);
+  std::string cls = "done";
+  if (fam.kind == 0) {
+    const Syntax other = fam.syn == Syntax::MATH ? Syntax::ASCII : Syntax::MATH;
+    switch (e) {
+      case 0: { auto v = parse_stage(c, E, s, tl, fam.syn); cls = v.ok ? "parse-ok" : "parse-fail:" + hexid(v.firstCritical); break; }
+      case 1: { auto v = parse_stage(c, E, s, tl, Syntax::UNDEF); cls = v.ok ? "parse-ok" : "parse-fail:" + hexid(v.firstCritical); break; }
+      case 2: { Verdict t, v; audit_stage(c, *E.a1, "G1", s, tl, fam.syn, &t, &v); cls = !t.ok ? "type-fail:" + hexid(t.firstCritical) : v.ok ? "audit-ok" : "value-fail:" + hexid(v.firstCritical); break; }
+      case 3: { std::optional<rs::ExpressionValue> val; Verdict v;
+                if (guarded(c, "Evaluate", false, [&] { val = E.interp->Evaluate(s, fam.syn); }) == 0)
+                  check_log(c, "Evaluate", val.has_value(), E.interp->Errors(), bound_for(tl, E.interp->parser.syntax), "[G1]", &v);
+                cls = v.ok ? "eval-ok" : "eval-fail:" + hexid(v.firstCritical); break; }
+      case 4: { std::string out; guarded(c, "ConvertTo", false, [&] { out = rs::ConvertTo(s, other); }); cls = out == s ? "convert-identity" : "converted"; break; }
+      case 5: { std::string out; if (guarded(c, "api.ParseExpression", false, [&] { out = ccl::api::ParseExpression(s, fam.syn); }) == 0) check_answer(c, "api.ParseExpression", out, s, false); break; }
+      case 6: { std::string out; if (guarded(c, "RSFormJA.CheckExpression", false, [&] { out = E.ja->CheckExpression(s, fam.syn); }) == 0) check_answer(c, "RSFormJA.CheckExpression", out, s, true); break; }
+    }
+  } else if (fam.kind == 1) run_ref(c, tc, s, e);
+  else {
+    if (e == 0) { const int r = guarded(c, "RSFormJA.FromJSON", true, [&] { auto x = ccl::api::RSFormJA::FromJSON(s); (void)x; }); cls = r == 1 ? "json-format-error" : "loaded"; }
+    else { const int r = guarded(c, "py.CheckSchema", true, [&] { auto x = ::CheckSchema(s); (void)x; }); cls = r == 1 ? "json-format-error" : "loaded"; }
+  }
+  const double dt = now_s() - t0;
+  if (dt > 10.0) c.rep.notes.push_back("slow: " + desc + " took " + std::to_string(static_cast<int>(dt)) + " s");
+  c.rep.outcome(cls);
+  c.rep.count("evaluations"); if (depth >= 100) c.rep.count("nontrivial");
+  if (e == 0 && depth == 10 && (fam.name.size() % 5 == 0)) c.rep.sample(desc + " | " + show(s.substr(0, 80)));
+  c.done();
+}
+
+// blocks: all families together for depth <= 1000 (cheap, no fault expected); one block per family for larger depths
+// (a faulting case then only repeats the <= 7 cases of its own family and depth)
+std::vector<Block> blocks_ladders(Env& E, long maxDepth, long facadeMaxDepth) {
+  std::vector<Block> out;
+  auto entries_of = [](const Family& fam) { return fam.kind == 0 ? 7 : fam.kind == 1 ? 3 : 2; };
   for (long depth = 1; depth <= maxDepth; depth *= 10) {
-    for (const auto& fam : families()) {
-      if (depth > fam.maxDepth) continue;
-      const int entries = fam.kind == 0 ? 7 : fam.kind == 1 ? 3 : 2;
-      for (int e = 0; e < entries; ++e) {
-        if (fam.kind == 0 && e >= 5 && depth > facadeMaxDepth) continue;  // the JSON facades build a DOM of the whole tree: memory bound
-        if (!c.take()) continue;
-        const char* en = fam.kind == 0 ? kExprEntries[e] : fam.kind == 1 ? kRefEntries[e] : kJsonEntries[e];
-        const std::string desc = "ladder family=" + fam.name + " depth=" + std::to_string(depth) + " entry=" + en;
-        const std::string s = fam.make(depth);
-        c.begin(desc);
-        const double t0 = now_s();
-        const TextLen tl = measure(s);
-        std::string cls = "done";
-        if (fam.kind == 0) {
-          const Syntax other = fam.syn == Syntax::MATH ? Syntax::ASCII : Syntax::MATH;
-          switch (e) {
-            case 0: { auto v = parse_stage(c, E, s, tl, fam.syn); cls = v.ok ? "parse-ok" : "parse-fail:" + hexid(v.firstCritical); break; }
-            case 1: { auto v = parse_stage(c, E, s, tl, Syntax::UNDEF); cls = v.ok ? "parse-ok" : "parse-fail:" + hexid(v.firstCritical); break; }
-            case 2: { Verdict t, v; audit_stage(c, *E.a1, "G1", s, tl, fam.syn, &t, &v); cls = !t.ok ? "type-fail:" + hexid(t.firstCritical) : v.ok ? "audit-ok" : "value-fail:" + hexid(v.firstCritical); break; }
-            case 3: { std::optional<rs::ExpressionValue> val; Verdict v;
-                      if (guarded(c, "Evaluate", false, [&] { val = E.interp->Evaluate(s, fam.syn); }) == 0)
-                        check_log(c, "Evaluate", val.has_value(), E.interp->Errors(), bound_for(tl, E.interp->parser.syntax), "[G1]", &v);
-                      cls = v.ok ? "eval-ok" : "eval-fail:" + hexid(v.firstCritical); break; }
-            case 4: { std::string out; guarded(c, "ConvertTo", false, [&] { out = rs::ConvertTo(s, other); }); cls = out == s ? "convert-identity" : "converted"; break; }
-            case 5: { std::string out; if (guarded(c, "api.ParseExpression", false, [&] { out = ccl::api::ParseExpression(s, fam.syn); }) == 0) check_answer(c, "api.ParseExpression", out, s, false); break; }
-            case 6: { std::string out; if (guarded(c, "RSFormJA.CheckExpression", false, [&] { out = E.ja->CheckExpression(s, fam.syn); }) == 0) check_answer(c, "RSFormJA.CheckExpression", out, s, true); break; }
+    if (depth <= 1000) {
+      out.push_back({ "ladders/d" + std::to_string(depth), [&E, depth, facadeMaxDepth, entries_of](Ctx& c) {
+        for (const auto& fam : families()) { if (depth > fam.maxDepth) continue;
+          for (int e = 0; e < entries_of(fam); ++e) { if (fam.kind == 0 && e >= 5 && depth > facadeMaxDepth) continue; if (c.take()) ladder_case(c, E, fam, depth, e); } }
+      } });
+    } else {
+      // two families per block: <= 14 cases on 16 workers, i.e. at most one case per shard (a fault repeats nothing)
+      std::vector<size_t> live;
+      for (size_t fi = 0; fi < families().size(); ++fi) if (depth <= families()[fi].maxDepth) live.push_back(fi);
+      for (size_t k = 0; k < live.size(); k += 2) {
+        const size_t f1 = live[k], f2 = k + 1 < live.size() ? live[k + 1] : live[k];
+        out.push_back({ "ladders/d" + std::to_string(depth) + "/" + families()[f1].name + (f2 != f1 ? "+" + families()[f2].name : ""), [&E, depth, facadeMaxDepth, entries_of, f1, f2](Ctx& c) {
+          for (size_t fi : { f1, f2 }) {
+            const auto& fam = families()[fi];
+            for (int e = 0; e < entries_of(fam); ++e) { if (fam.kind == 0 && e >= 5 && depth > facadeMaxDepth) continue; if (c.take()) ladder_case(c, E, fam, depth, e); }
+            if (f2 == f1) break;
           }
-        } else if (fam.kind == 1) run_ref(c, tc, s, e);
-        else {
-          if (e == 0) { const int r = guarded(c, "RSFormJA.FromJSON", true, [&] { auto x = ccl::api::RSFormJA::FromJSON(s); (void)x; }); cls = r == 1 ? "json-format-error" : "loaded"; }
-          else { const int r = guarded(c, "py.CheckSchema", true, [&] { auto x = ::CheckSchema(s); (void)x; }); cls = r == 1 ? "json-format-error" : "loaded"; }
-        }
-        const double dt = now_s() - t0;
-        if (dt > 5.0) c.rep.notes.push_back("slow: " + desc + " took " + std::to_string(dt) + " s");
-        c.rep.outcome(cls);
-        c.rep.count("evaluations"); if (depth >= 100) c.rep.count("nontrivial");
-        if (e == 0 && (depth == 1 || depth == 1000)) c.rep.sample(desc + " | " + show(s.substr(0, 60)));
-        c.done();
+        } });
       }
     }
   }
+  return out;
 }
 
 // ---------------------------------------------------------------------------------------------------------------
 // refs: short adversarial reference strings
-void mode_refs(Ctx& c, int maxLen) {
-  static const std::vector<std::string> alpha = { "@{", "@", "{", "}", "|", "X1", "nomn", "sing,nomn", ",", "1", "-1", "99999999999", "-", " ", "\xD1\x8F", "\xE2", "@{X1|nomn}", "@{-1|big}", "@{X1|", "|nomn}", "" };
-  TermContext tc; tc.terms.emplace("X1", ccl::lang::LexicalTerm{ "term @{X2|nomn}", "term two" }); tc.terms.emplace("X2", ccl::lang::LexicalTerm{ "two", "two" });
-  for (int len = 0; len <= maxLen && !c.stop(); ++len) {
-    std::vector<int> idx(static_cast<size_t>(len), 0);
-    do {
-      bool hasEmpty = false; for (int k : idx) hasEmpty |= alpha[static_cast<size_t>(k)].empty();
-      if (hasEmpty && len > 0) continue;  // the empty token only yields duplicates of shorter strings
-      if (!c.take()) continue;
-      const std::string s = join(alpha, idx, false);
-      const std::string desc = "refs | " + show(s);
-      c.begin(desc);
-      ccl::lang::TextEnvironment::Instance().skipResolving = false;
-      run_ref(c, tc, s, -1);
-      // the bare inner text, as Reference::Parse is documented to take "@{...}"
-      if (s.rfind("@{", 0) != 0) { const std::string w = "@{" + s + "}"; guarded(c, "Reference.Parse", false, [&] { auto r = ccl::lang::Reference::Parse(w); (void)r; }); }
-      c.rep.count("evaluations");
-      const auto n = ccl::lang::Reference::ExtractAll(s).size();
-      if (n > 0) c.rep.count("nontrivial");
-      c.rep.outcome("refs:" + std::to_string(std::min<size_t>(n, 3)));
-      if (c.idx % 30011 == 1) c.rep.sample(desc);
-      c.done();
-    } while (odometer(idx, static_cast<int>(alpha.size())));
+const std::vector<std::string>& ref_alphabet() {
+  static const std::vector<std::string> alpha = { "@{", "@", "{", "}", "|", "X1", "nomn", "sing,nomn", ",", "1", "-1", "99999999999", "-", " ", "\xD1\x8F", "\xE2", "@{X1|nomn}", "@{-1|big}", "@{X1|", "|nomn}" };
+  return alpha;
+}
+TermContext& ref_terms() {
+  static TermContext tc = [] { TermContext t; t.terms.emplace("X1", ccl::lang::LexicalTerm{ "term @{X2|nomn}", "term two" }); t.terms.emplace("X2", ccl::lang::LexicalTerm{ "two", "two" }); return t; }();
+  return tc;
+}
+std::vector<Block> blocks_refs(int maxLen) {
+  std::vector<Block> out;
+  for (int len = 0; len <= maxLen; ++len) {
+    const int firsts = len >= 3 ? static_cast<int>(ref_alphabet().size()) : 1;
+    for (int first = 0; first < firsts; ++first) {
+      out.push_back({ "refs/l" + std::to_string(len) + "/" + std::to_string(first), [len, first](Ctx& c) {
+        const auto& alpha = ref_alphabet(); const TermContext& tc = ref_terms();
+        std::vector<int> idx(static_cast<size_t>(len), 0);
+        do {
+          if (len >= 3 && idx[0] != first) continue;
+          if (!c.take()) continue;
+          const std::string s = join(alpha, idx, false);
+          const std::string desc = "refs | " + show(s);
+          c.begin(desc);
+          ccl::lang::TextEnvironment::Instance().skipResolving = false;
+          run_ref(c, tc, s, -1);
+          // the same text as the body of one reference: Reference::Parse is documented to take "@{...}"
+          if (s.rfind("@{", 0) != 0) { const std::string w = "@{" + s + "}"; guarded(c, "Reference.Parse", false, [&] { auto r = ccl::lang::Reference::Parse(w); (void)r; }); }
+          c.rep.count("evaluations");
+          size_t n = 0;
+          try { n = ccl::lang::Reference::ExtractAll(s).size(); } catch (...) {}  // already reported by run_ref
+          if (n > 0) c.rep.count("nontrivial");
+          c.rep.outcome("refs:" + std::to_string(std::min<size_t>(n, 3)));
+          if (c.idx == 77 && first % 4 == 0) c.rep.sample(desc);
+          c.done();
+        } while (odometer(idx, static_cast<int>(alpha.size())));
+      } });
+    }
   }
+  return out;
 }
 
 // ---------------------------------------------------------------------------------------------------------------
@@ -832,13 +923,12 @@ std::vector<Deviation> deviations() {
   return out;
 }
 
-void mode_json(Ctx& c) {
-  const auto devs = deviations();
+void json_block(Ctx& c, const std::vector<Deviation>& devs, size_t from, size_t to) {
   const std::vector<std::string> exprs = { "", "X1", "D1" U_UNION "X1", "A1=X1", "A1" U_UNION "X1", "S1::=X1", "Pr1(S1)", U_FORALL "a" U_IN "X1 a" U_IN "D1", "D1 \\in B(X1)", "$" };
   struct CstProbe { std::string alias, def, type; };
   const std::vector<CstProbe> probes = { { "X9", "", "basic" }, { "X9", "X1", "basic" }, { "D9", "D1" U_UNION "X1", "term" }, { "D9", "", "term" }, { "A9", "A1=X1", "axiom" }, { "A9", "1=1", "axiom" }, { "S9", "X1", "structure" },
                                          { "S9", "A1", "structure" }, { "F9", "[a" U_IN "X1] a", "function" }, { "F9", "X1", "function" }, { "D9", "1=1", "term" }, { "", "X1", "term" }, { "D9", "X1", "foo" }, { "D1", "D1", "term" }, { "\xFF", "X1", "term" } };
-  for (size_t i = 0; i < devs.size(); ++i) {
+  for (size_t i = from; i < to && i < devs.size(); ++i) {
     if (!c.take()) continue;
     const auto& dv = devs[i];
     const std::string desc = "json deviation=" + dv.what;
@@ -877,6 +967,16 @@ void mode_json(Ctx& c) {
   }
 }
 
+
+std::vector<Block> blocks_json() {
+  static const std::vector<Deviation> devs = deviations();
+  std::vector<Block> out;
+  const size_t step = 64;
+  for (size_t from = 0; from < devs.size(); from += step)
+    out.push_back({ "json/" + std::to_string(from), [from, step](Ctx& c) { json_block(c, devs, from, from + step); } });
+  return out;
+}
+
 }  // namespace
 
 int main(int argc, char** argv) {
@@ -884,11 +984,12 @@ int main(int argc, char** argv) {
   opt.max_crashes_per_shard = 100000;  // every crashing case is attributed; the cap would only turn findings into exhaustive:false
   const double t0 = now_s();
   Result res; res.property = "C04"; res.harness = "h_robust"; res.mode = opt.mode; res.tier = opt.tier;
-  RunInfo ri;
+  RunInfo ri; BlockRun br;
+  Env E;  // built once in the parent: every forked worker starts from the same pristine analysers
   const std::string oracle = " || oracle per case: returns normally (fault / alarm attributed by the engine); no exception but nlohmann::json::exception from a loading entry point; verdict false <=> >= 1 critical error logged; 0 <= position <= input length";
   if (opt.mode == "tokens") {
     const int L = static_cast<int>(opt.num("maxlen", opt.thorough() ? 4 : 3)), F = static_cast<int>(opt.num("fulllen", 3)), G = static_cast<int>(opt.num("gluelen", opt.thorough() ? 3 : 2)), D = static_cast<int>(opt.num("deeplen", 2));
-    res.rep = run_sharded(opt, "tokens", [&](Ctx& c) { mode_tokens(c, L, F, G, D); }, &ri);
+    br = run_blocks(opt, blocks_tokens(E, L, F, G, D));
     res.completed_bound = "all token sequences of <= " + std::to_string(std::min(L, F)) + " tokens over the full alphabet" + (L > F ? " and of " + std::to_string(F + 1) + ".." + std::to_string(L) + " tokens over the reduced alphabet" : "") +
                           " (separated by one blank), and of <= " + std::to_string(G) + " tokens glued, per syntax";
     res.alphabet = "full MATH: " + std::to_string(math_alphabet().size()) + " tokens, ASCII: " + std::to_string(ascii_alphabet().size()) + " tokens (every lexer rule spelled; indices 0 1 1,2 3,0; ints 0 1 2147483647 99999999999; identifiers of every kind; newline $ 0x80 0xE2 0xFF NUL); reduced (1-2 spellings per grammar class) MATH: " +
@@ -896,40 +997,42 @@ int main(int argc, char** argv) {
     res.rule = "case = one string (distinct by construction within a pass); Parser::Parse under hints own/UNDEF/other on every string; Auditor (G1, empty G0), SchemaAuditor, Interpreter, api::ParseExpression, RSFormJA::CheckExpression, ConvertTo x2 and the pyconcept wrappers on every string of <= " + std::to_string(D) + " tokens and on every string that parses under some hint (these stages are behind the parse gate in the code); non-trivial = parses under some hint" + oracle;
   } else if (opt.mode == "bytes") {
     const int a = static_cast<int>(opt.num("len32", 3)), b = static_cast<int>(opt.num("len256", 2)), da = static_cast<int>(opt.num("deep32", opt.thorough() ? 3 : 2)), db = static_cast<int>(opt.num("deep256", opt.thorough() ? 2 : 1));
-    res.rep = run_sharded(opt, "bytes", [&](Ctx& c) { mode_bytes(c, a, b, da, db); }, &ri);
+    br = run_blocks(opt, blocks_bytes(E, a, b, da, db));
     res.completed_bound = "all byte strings of <= " + std::to_string(a) + " bytes over 32 bytes and of <= " + std::to_string(b) + " bytes over all 256 bytes";
     res.alphabet = "32 bytes: NUL TAB LF CR SP $ ( ) * , - 0 1 : = B D X R a _ \\ { } | [ 7F 80 88 C2 E2 FF; and 00..FF";
     res.rule = "case = one byte string; every stage under hints MATH/UNDEF/ASCII for strings of <= " + std::to_string(da) + " (32-alphabet) / <= " + std::to_string(db) + " (256-alphabet) bytes and for every string that parses; Parser::Parse x3 hints on all; non-trivial = parses under some hint" + oracle;
   } else if (opt.mode == "edits") {
     const int ds = static_cast<int>(opt.num("doubleseeds", opt.thorough() ? 20 : 0));
-    res.rep = run_sharded(opt, "edits", [&](Ctx& c) { mode_edits(c, ds); }, &ri);
+    br = run_blocks(opt, blocks_edits(E, ds));
     res.completed_bound = std::to_string(seeds().size()) + " seeds x 2 syntaxes: every deletion, replacement and insertion of one token by every alphabet token" + (ds > 0 ? "; two edits (core alphabet of 40 tokens) on " + std::to_string(ds) + " seeds" : "");
     res.alphabet = "seeds = one valid expression per production of RSParserImpl.y; edit tokens = the tokens-mode alphabets";
     res.rule = "case = one edited token sequence (duplicates between different edits possible, not removed); stages as in tokens mode (deep on parse success); non-trivial = parses" + oracle;
   } else if (opt.mode == "ladders") {
-    const long md = opt.num("maxdepth", opt.thorough() ? 1000000 : 100000), fd = opt.num("facadedepth", 100000);
-    opt.case_timeout_s = static_cast<int>(opt.num("ladder-timeout", 100));
-    res.rep = run_sharded(opt, "ladders", [&](Ctx& c) { mode_ladders(c, md, fd); }, &ri);
-    res.completed_bound = std::to_string(families().size()) + " families x depth 1,10,..," + std::to_string(md) + " x entry points (JSON facades up to depth " + std::to_string(fd) + ")";
+    const long md = opt.num("maxdepth", opt.thorough() ? 1000000 : 10000), fd = opt.num("facadedepth", 100000);
+    opt.case_timeout_s = static_cast<int>(opt.num("ladder-timeout", 300));
+    br = run_blocks(opt, blocks_ladders(E, md, fd));
+    res.completed_bound = std::to_string(families().size()) + " families x depth 1,10,..,min(" + std::to_string(md) + ", cap of the family's cost class: nested types 1e3, wide lists 1e4, recursive nesting 1e5, flat 1e6) x entry points (JSON facades up to depth " + std::to_string(fd) + ")";
     res.alphabet = "nesting constructs ( not B { tuple quantifier chains [ call card bool debool pr Pr Fi D{ I{ R{, width families, long lexemes, @{ reference braces, JSON arrays/objects";
     res.rule = "case = (family, depth, entry point); parametrised family enumerated completely; non-trivial = depth >= 100" + oracle;
   } else if (opt.mode == "json") {
-    res.rep = run_sharded(opt, "json", [&](Ctx& c) { mode_json(c); }, &ri);
+    br = run_blocks(opt, blocks_json());
     res.completed_bound = "valid 4-constituent document + every one-deviation document (" + std::to_string(deviations().size()) + " documents)";
     res.alphabet = "deviations: delete each key/element; replace each value by 12 values of other JSON types; uid / alias collisions; duplicates; 19 aliases; 11 cstType strings; 25 formal definitions; 14 reference texts; form tags; tracking; every prefix of the text; 20 raw texts";
     res.rule = "case = one document through FromJSON, ToJSON, reload, ToMinimalJSON, CheckExpression x10, CheckConstituenta x15, pyconcept CheckSchema/ResetAliases/CheckExpression x2/CheckConstituenta x2; non-trivial = document loads" + oracle;
   } else if (opt.mode == "refs") {
     const int L = static_cast<int>(opt.num("maxlen", opt.thorough() ? 5 : 4));
-    res.rep = run_sharded(opt, "refs", [&](Ctx& c) { mode_refs(c, L); }, &ri);
+    br = run_blocks(opt, blocks_refs(L));
     res.completed_bound = "all sequences of <= " + std::to_string(L) + " reference tokens (20 tokens)";
     res.alphabet = "@{ @ { } | X1 nomn sing,nomn , 1 -1 99999999999 - blank я E2 @{X1|nomn} @{-1|big} @{X1| |nomn}";
     res.rule = "case = one text through Reference::Parse (also wrapped in @{}), ExtractAll, RefsManager::Resolve; non-trivial = >= 1 reference extracted" + oracle;
   } else { fprintf(stderr, "unknown mode\n"); return 2; }
+  res.rep = std::move(br.rep); ri = br.ri;
+  res.rep.counters["blocks"] = br.blocks;
   res.evaluations = res.rep.counters["evaluations"];
   res.distinct_nontrivial = res.rep.counters["nontrivial"];
   res.states = res.evaluations; res.transitions = res.rep.counters["verdicts_checked"] + res.rep.counters["positions_checked"]; res.traces_validated = res.evaluations;
   res.exhaustive = !ri.deadline_hit && !ri.crash_cap_hit;
-  res.assumptions = { "positions: MATH = code points for well-formed UTF-8 (byte length for ill-formed input), ASCII = bytes", "analyser objects are reused across the cases of a worker (C18 covers history independence)",
+  res.assumptions = { "positions: MATH = code points for well-formed UTF-8 (byte length for ill-formed input), ASCII = bytes", "analyser objects are built once and reused across the cases of a worker (C18 covers history independence); the enumeration is cut into blocks (one engine run each)",
                       "clang 14 + libstdc++ 12, ASan+UBSan, asserts enabled, 8 MB stack" };
   res.wall_s = now_s() - t0;
   res.write(opt.out.empty() ? "/dev/stdout" : opt.out);
